@@ -59,7 +59,8 @@ REGIONS = {
 
 SWAPS = [(" <= ", " < "), (" < ", " <= "), (" >= ", " > "), (" > ", " >= "), (" == ", " != "), (" != ", " == "),
          (" + ", " - "), (" - ", " + "), (" && ", " || "), (" || ", " && "), (" += ", " -= "), (" -= ", " += "),
-         ("++;", "--;"), (" * ", " + ")]
+         ("++;", "--;"), (" * ", " + "), (" | ", " & "), (" & ", " | "), (" << ", " >> "), ("(!", "("), ("return !", "return "),
+         (" - 1", " - 0"), (" + 1", " + 2")]
 
 
 def function_ranges(region):
